@@ -86,6 +86,16 @@ Theorem C15_steps_eq_clock : forall cfg fuel ops t st' l, c_abm cfg = true -> op
 Proof. exact steps_eq_clock_final. Qed.
 Print Assumptions C15_steps_eq_clock.
 
+(* C15 in one statement: such a run ends with steps = clock = t and stepped exactly once at every tick in between *)
+Theorem C15_step_every_tick : forall cfg fuel ops t st' l, c_abm cfg = true -> ops_ok cfg fuel (init cfg) ops ->
+  s_time (final cfg fuel (init cfg) ops) <= t -> t mod SCALE = 0 ->
+  run_loop cfg fuel t (final cfg fuel (init cfg) ops) = (st', l, true) ->
+  s_steps st' * SCALE = t /\ s_time st' = t /\
+  steps_of l = tick_list (s_steps (final cfg fuel (init cfg) ops))
+                         (Z.to_nat (s_steps st' - s_steps (final cfg fuel (init cfg) ops))).
+Proof. exact step_every_tick_final. Qed.
+Print Assumptions C15_step_every_tick.
+
 (* after run_next_event (which may stop inside a tick): clock - 1 <= steps <= clock *)
 Theorem C15_steps_near_clock : forall cfg fuel ops st' l, c_abm cfg = true -> ops_ok cfg fuel (init cfg) ops ->
   run_next cfg (final cfg fuel (init cfg) ops) = (st', l) ->
